@@ -928,7 +928,10 @@ func runScenario(r *lib.Run, idx int) {
 			}
 			m = lo + uint64(rng.IntN(int(tgt-1-lo)))
 		}
-		byHash := rng.IntN(3) == 0
+		byHash := rng.IntN(2) == 0
+		if byHash && rng.IntN(2) == 0 {
+			k = 1 // right after the view's first read (by hash: the hash -> number lookup)
+		}
 		cs, ss := sortedFelts(w.ps.Contracts), sortedFelts(w.ps.Slots)
 		var cnt atomic.Int64
 		var ev eventResult
